@@ -48,7 +48,7 @@ def gen_bundle(rng, seg, big_ok=True):
     return bytes(rng.getrandbits(8) for _ in range(n))
 
 
-def run_scenario(rng, flavour, tier, cfg_a=None, cfg_b=None, timers=False, nqueries=None):
+def run_scenario(rng, flavour, tier, cfg_a=None, cfg_b=None, timers=False, nqueries=None, npops=None):
     ''' flavour: 'transfer' | 'terminate' | 'abort'. Returns (sim, sent, meta). '''
     cfg_a = cfg_a or gen_cfg(rng, timers)
     cfg_b = cfg_b or gen_cfg(rng, timers)
@@ -65,7 +65,7 @@ def run_scenario(rng, flavour, tier, cfg_a=None, cfg_b=None, timers=False, nquer
         actions.append(('send', who, gen_bundle(rng, seg)))
     for _ in range(rng.choice([0, 1, 2, 4]) if nqueries is None else nqueries):
         actions.append(('query', rng.choice(['a', 'b']), rng.choice(['state', 'idle', 'txq', 'rxq'])))
-    for _ in range(rng.choice([0, 1, 2])):
+    for _ in range(rng.choice([0, 1, 2]) if npops is None else npops):
         actions.append(('pop', rng.choice(['a', 'b']), None))
     rng.shuffle(actions)
     if flavour in ('terminate', 'abort'):
